@@ -6,15 +6,17 @@ import (
 	"fmt"
 	"go/types"
 	"os"
-	"time"
 	"regexp"
 	"sort"
 	"strings"
+	"time"
 )
 
 func init() { register("C06", checkC06) }
 
-var loopIdx = regexp.MustCompile(`\[\([A-Za-z0-9_.$]+\.L\d+/rangeindex \+ 1\)\]`)
+// loopIdx: an index expression built from a loop variable — `(f.L3/rangeindex + 1)` for range loops,
+// `f.L3/i` for index loops — whatever the loop form, it stands for "the element of this iteration".
+var loopIdx = regexp.MustCompile(`\[\(?[A-Za-z0-9_.$]+\.L\d+/[A-Za-z0-9_]+(?: \+ 1\))?\]`)
 
 func normIdx(s string) string { return loopIdx.ReplaceAllString(s, "[*]") }
 
@@ -23,9 +25,9 @@ func normIdx(s string) string { return loopIdx.ReplaceAllString(s, "[*]") }
 type Validated struct {
 	ExitPaths []map[string]bool // fact sets of the individual accepting paths (loop indices normalised)
 	IterPaths []map[string]bool
-	Exit map[string]bool
-	Iter map[string]bool // facts holding in every accepted iteration (loop indices normalised)
-	OK   bool
+	Exit      map[string]bool
+	Iter      map[string]bool // facts holding in every accepted iteration (loop indices normalised)
+	OK        bool
 }
 
 var validatedCache = map[string]*Validated{}
